@@ -29,7 +29,7 @@ THEOREMS = [
     'C02_encode_injective', 'C02_encode_injective_gen', 'C02_lang_injective', 'C02_single_change',
     'C02_boundary_shift', 'C02_split_merge', 'C02_name_value_shift', 'C02_list_move', 'C02_key_iff',
     'C02_pp_encode_injective', 'C02_pp_single_change', 'C02_pp_boundary_shift', 'C02_pp_name_value_shift',
-    'C02_pp_list_move', 'C02_pp_key_iff', 'C02_pp_env_covers_main',
+    'C02_pp_list_move', 'C02_pp_key_iff', 'C02_pp_env_covers_main', 'C02_required_vars_hashed',
     'C02_lang_pp_boundary_refuted', 'C02_extra_pp_boundary_refuted', 'C02_pp_lang_path_boundary_refuted',
     'C02_old_tags_refuted', 'C02_old_env_cover_refuted',
 ]
@@ -52,8 +52,14 @@ SPEC = None
 HARNESS_LANGS = ['C', 'Cxx', 'GenericHeader', 'CHeader', 'CxxHeader', 'ObjectiveC', 'ObjectiveCxx', 'ObjectiveCxxHeader',
                  'Cuda', 'CudaFE', 'Ptx', 'Cubin', 'Rust', 'Hip']
 ALIASES = [frozenset((b'Cuda', b'CudaFE'))]
+# mirror of required_main / required_pp in Model/KeyEnc.v: the variables the property counts as result-affecting
+REQUIRED_MAIN = [b'SCCACHE_C_CUSTOM_CACHE_BUSTER', b'MACOSX_DEPLOYMENT_TARGET', b'IPHONEOS_DEPLOYMENT_TARGET',
+                 b'TVOS_DEPLOYMENT_TARGET', b'WATCHOS_DEPLOYMENT_TARGET', b'SDKROOT', b'CCC_OVERRIDE_OPTIONS']
+REQUIRED_PP = REQUIRED_MAIN + [b'CPATH', b'C_INCLUDE_PATH', b'CPLUS_INCLUDE_PATH', b'OBJC_INCLUDE_PATH', b'OBJCPLUS_INCLUDE_PATH']
 ROOT = '/dev/shm/vh-c02-%d' % os.getpid()
+CORPUS_ROOT = '/dev/shm/vh-c02-corpus'
 HEX = b'0123456789abcdef'
+atexit.register(lambda: shutil.rmtree(ROOT, ignore_errors=True))
 
 
 # ------------------------------------------------------------------ translator
@@ -84,7 +90,7 @@ def load_spec():
         if os.path.exists(SPEC_JSON):
             SPEC = spec_from_json(json.load(open(SPEC_JSON)))
         else:
-            SPEC = c02_hashspec.read_spec(pipeline.REPO)
+            SPEC = spec_from_json(spec_to_json(c02_hashspec.read_spec(pipeline.REPO)[0]))
     return SPEC
 
 
@@ -117,6 +123,9 @@ def side_conditions(s):
     res.append(('side-condition:tags_ok (no two languages share or ambiguously extend a tag)', not bad, '; '.join(bad[:4])))
     names = s['allow_main'] + s['allow_pp']
     res.append(('side-condition:allow_ok (allow-listed names NUL-free)', all(0 not in n for n in names), ''))
+    gone = [n.decode() for n in REQUIRED_MAIN if n not in s['allow_main']] + [n.decode() for n in REQUIRED_PP if n not in s['allow_pp']]
+    res.append(('side-condition:required_ok (no result-affecting variable dropped from an allow-list)', not gone,
+                'no longer allow-listed: %s' % gone if gone else ''))
     miss = [n.decode('latin-1') for n in s['allow_main'] if n not in s['allow_pp']]
     res.append(('side-condition:env_main subset of env_pp (S16)', not miss,
                 'in hash_key\'s CACHED_ENV_VARS but not in the preprocessor-level key\'s: %s' % miss if miss else ''))
@@ -127,17 +136,23 @@ def side_conditions(s):
 def translate(rep):
     global SPEC
     SPEC = None
-    spec = c02_hashspec.main(pipeline.REPO, GEN_DIR)      # raises on unknown syntax
-    os.makedirs(GEN_DIR, exist_ok=True)
-    json.dump(spec_to_json(spec), open(SPEC_JSON, 'w'))
+    last = spec_from_json(json.load(open(SPEC_JSON))) if os.path.exists(SPEC_JSON) else None
+    if last:
+        last['tags'] = [tuple(t) if not isinstance(t[0], bytes) else (t[0].decode(), t[1]) for t in last['tags']]
+    spec, errors = c02_hashspec.main(pipeline.REPO, GEN_DIR, last)
     SPEC = spec_from_json(spec_to_json(spec))
-    rep.oblige('translate', True, 'Gen/C02HashSpec.v from %s: CACHE_VERSION=%r FORMAT_VERSION=%r, %d+%d allow-listed variables, %d languages'
-               % (pipeline.REPO, spec['version'], spec['fmt_version'], len(spec['allow_main']), len(spec['allow_pp']), len(spec['tags'])))
     for name, ok, detail in side_conditions(SPEC):
         rep.oblige(name, ok, detail)
     extra_langs = [n for n, _ in spec['tags'] if n not in HARNESS_LANGS]
     if extra_langs:
         rep.notes.append('languages not yet nameable by harness/src/bin/c02.rs (covered by T only): %s' % extra_langs)
+    if errors:
+        # unknown syntax is a broken obligation, never a pass; the unrecognised items were replaced by what the model
+        # is proved for, so the differential legs below compare the real code with the expected behaviour
+        raise c02_hashspec.Unrecognised('; '.join(errors))
+    json.dump(spec_to_json(spec), open(SPEC_JSON, 'w'))
+    rep.oblige('translate', True, 'Gen/C02HashSpec.v from %s: CACHE_VERSION=%r FORMAT_VERSION=%r, %d+%d allow-listed variables, %d languages'
+               % (pipeline.REPO, spec['version'], spec['fmt_version'], len(spec['allow_main']), len(spec['allow_pp']), len(spec['tags'])))
 
 
 # ------------------------------------------------------------------ requests (python values)
@@ -163,8 +178,14 @@ def tag_of(l):
     return None
 
 
+def allow_list(which):
+    """what the property counts as hashed: the translated allow-list plus the variables required at the pinned commit"""
+    al = list(load_spec()[which])
+    return al + [k for k in (REQUIRED_MAIN if which == 'allow_main' else REQUIRED_PP) if k not in al]
+
+
 def fenv(r, which):
-    al = load_spec()[which]
+    al = allow_list(which)
     return tuple((bytes(k), bytes(v)) for k, v in r[5] if k in al)
 
 
@@ -245,7 +266,7 @@ def gen_text(rng, maxtok):
 
 def gen_env(rng):
     s = load_spec()
-    allow = s['allow_main'] + s['allow_pp']
+    allow = allow_list('allow_main') + allow_list('allow_pp')
     out = []
     for _ in range(rng.weighted([(0, 3), (1, 3), (2, 3), (rng.range(3, 7), 2)])):
         k = rng.choice(allow) if rng.chance(3, 5) else rng.choice(OTHER_VARS)
@@ -333,9 +354,10 @@ def mutants(r, level, adversarial=False):
             put('extra-swap', 4, [extra[1], extra[0]] + extra[2:])
     put('extra-add', 4, extra + [b'0123456789abcdef' * 4])
     # --- environment
-    al = s['allow_main'] if level == 'c' else s['allow_pp']
-    other = s['allow_pp'] if level == 'c' else s['allow_main']
+    al = allow_list('allow_main' if level == 'c' else 'allow_pp')
+    other = allow_list('allow_pp' if level == 'c' else 'allow_main')
     put('env-add-allowed', 5, env + [[al[-1], b'v']])
+    put('env-add-allowed', 5, env + [[al[sum(d) % len(al)], b'w']])
     put('env-add-allowed-empty', 5, env + [[al[0], b'']])
     put('env-add-other', 5, env + [[b'HOME', b'/root']])
     for k in other:
@@ -433,7 +455,7 @@ def known_ids():
 
 
 def gen_key(rng, tier):
-    n = 1300 if tier == 'quick' else 30000
+    n = 4000 if tier == 'quick' else 40000
     out = [group(rng, gen_req_c(rng), 'c', 26) for _ in range(n)]
     if {'C02-S10b', 'C02-S10c'} <= known_ids():
         for _ in range(20 if tier == 'quick' else 200):
@@ -442,7 +464,7 @@ def gen_key(rng, tier):
 
 
 def gen_ppkey(rng, tier):
-    n = 450 if tier == 'quick' else 8000
+    n = 1200 if tier == 'quick' else 10000
     out = []
     for i in range(n):
         root = ('%s/%d' % (ROOT, i)).encode()
@@ -452,7 +474,7 @@ def gen_ppkey(rng, tier):
 
 def gen_lp(rng, tier):
     out = [b'', b'a', b'\0', bytes(range(256)), b'=' * 61, b'x' * 255, b'x' * 256, b'x' * 257, b'y' * 65536, b'z' * 65537]
-    for _ in range(1500 if tier == 'quick' else 20000):
+    for _ in range(3000 if tier == 'quick' else 30000):
         out.append(gen_bytes(rng, 40, True))
     return out
 
@@ -652,6 +674,7 @@ def legs(tier):
 def extra(rep, known):
     CHAIN.close()
     shutil.rmtree(ROOT, ignore_errors=True)
+    shutil.rmtree(CORPUS_ROOT, ignore_errors=True)
     if 'key' in rep.legs:
         return
     # The model could not be built (e.g. a side condition of Gen/C02HashSpec_ok.v fails).  Search for a failing
@@ -683,3 +706,4 @@ def extra(rep, known):
                     rep.violation('property', leg.name, small, v + ' (found on the implementation alone; the model was not built)')
         rep.legs[leg.name + ':impl-only'] = dict(cases=len(cases), violations=nv)
     shutil.rmtree(ROOT, ignore_errors=True)
+    shutil.rmtree(CORPUS_ROOT, ignore_errors=True)
